@@ -269,7 +269,8 @@ def fam_graph(full, region_targets):
       clause = "C04.style.chain"
     else:
       clause = "C04.style.precedence"
-    d = f"target={target},refs={len(erefs)},inline={int(inline)},depth={dmax},diamond={int(diamond)},missing={int(missing)}"
+    d = "nested-style-with-reference" if clause == "C04.style.nested.chain" else \
+        f"target={target.split('+')[0]},depth={min(dmax, 2)},diamond={int(diamond)},missing={int(missing)}"
     return {"xml": tt(head("".join(st), layout) + body), "area": "graph", "clause": clause, "d": d, "cyclic": cyc, "key": None}
   return prod.n, decode
 
@@ -301,8 +302,8 @@ VALUES = {
                     [("name", "Arial"), ("list", "Arial, Helvetica"), ("list-nospace", "Arial,Helvetica,proportionalSansSerif"),
                      ("squote", "'Times New Roman'"), ("dquote", '"Times New Roman", serif'), ("unquoted-words", "Times New Roman"),
                      ("quoted-generic", "'default'"), ("escape", r'"bar \"q\""'), ("escape-unquoted", r"foo\,bar, serif"),
-                     ("one-char", "A"), ("one-char-list", "A, serif"), ("space-before-comma", "Arial , serif"),
-                     ("generic-space-before-comma", "serif , Arial"), ("quoted-comma", '"a,b", c')],
+                     ("one-char", "A"), ("one-char", "A, serif"), ("space-before-comma", "Arial , serif"),
+                     ("space-before-comma", "serif , Arial"), ("quoted-comma", '"a,b", cd')],
   "tts:fontSize": [("c", "1c"), ("c", "1.5c"), ("%", "100%"), ("%", "150%"), ("em", "2em"), ("em", "0.5em"), ("px", "24px"),
                    ("rh", "10rh"), ("rw", "5rw"), ("nolead", ".5c")],
   "tts:fontStyle": _kw("normal", "italic", "oblique"),
@@ -345,9 +346,9 @@ VALUES = {
   "tts:textOutline": [("none", "none"), ("len", "1px"), ("len", "0.1em"), ("len", "10%"), ("color+len", "red 1px"), ("color+len", "#ff0000 10%"),
                       ("color+len", "rgba(0,0,0,128) 0.05c"), ("color+len", "transparent 1rh")],
   "tts:textShadow": [("none", "none"), ("2len", "1px 1px"), ("2len", "-1px -1px"), ("3len", "1px 1px 2px"), ("2len+color", "1px 1px red"),
-                     ("3len+color", "1px 1px 2px red"), ("3len+color", "0.1em 0.1em 0.05em #000000"), ("3len+color", "1px 1px 2px rgba(0,0,0,128)"),
+                     ("3len+color", "1px 1px 2px red"), ("3len+color", "0.1em 0.1em 0.05em #000000"), ("3len+rgba()", "1px 1px 2px rgba(0,0,0,128)"),
                      ("multi,comma", "1px 1px 2px red,2px 2px 3px blue"), ("multi,comma-space", "1px 1px 2px red, 2px 2px 3px blue"),
-                     ("multi,comma-space,short", "1px 1px red, -1px -1px 1px blue")],
+                     ("multi,comma-space", "1px 1px red, -1px -1px 1px blue")],
   "tts:unicodeBidi": _kw("normal", "embed", "bidiOverride"),
   "tts:visibility": _kw("visible", "hidden"),
   "tts:wrapOption": _kw("wrap", "noWrap"),
@@ -390,6 +391,289 @@ def fam_value():
   def decode(i):
     attr, lab, v, c = cases[i]
     local = attr.split(":")[1]
-    return {"xml": value_doc(attr, v, c), "area": "value" if c != "initial" else "initial",
-            "clause": f"C04.style.value.{local}" if c != "initial" else "C04.initial", "d": f"form={lab}" + (f",attr={local}" if c == "initial" else "")}
+    return {"xml": value_doc(attr, v, c), "area": "value", "clause": f"C04.style.value.{local}", "d": f"form={lab}"}
+  return len(cases), decode
+
+
+# ---------------------------------------------------------------------------------------------------
+# F-spacelang: xml:space and xml:lang on tt, body, p, span (root + three levels), region included
+
+SPACES = [None, "default", "preserve"]
+LANGS = [None, "fr", ""]
+
+
+def fam_spacelang():
+  prod = Product([SPACES] * 4 + [LANGS] * 4)
+
+  def decode(i):
+    s0, s1, s2, s3, l0, l1, l2, l3 = prod.decode(i)
+    span = el("span", {"xml:space": s3, "xml:lang": l3}, [" u ", el("span", None, ["v"]), el("br")])
+    p = el("p", {"xml:space": s2, "xml:lang": l2}, [" t ", span, "  w"])
+    body = el("body", {"xml:space": s1, "xml:lang": l1}, [el("div", None, [p])])
+    xml = tt(head("", el("region", {"xml:id": "r1"})) + body, {"xml:space": s0}, lang=l0)
+    return {"xml": xml, "area": "spacelang", "clause": "C04.anonspan",
+            "d": "space=" + "".join("-" if s is None else s[0] for s in (s0, s1, s2, s3)) + ",lang=" + "".join("-" if l is None else ("e" if l == "" else "f") for l in (l0, l1, l2, l3))}
+  return prod.n, decode
+
+
+# ---------------------------------------------------------------------------------------------------
+# F-mixed: mixed content of p and span
+
+TOK = {"T": "a", "W": "  \n ", "S": None, "E": None, "B": None, "N": None}
+
+
+def _tok_xml(t, j):
+  if t == "T":
+    return "abcd"[j]
+  if t == "W":
+    return "  \n "
+  if t == "S":
+    return el("span", None, ["s" + str(j)])
+  if t == "E":
+    return el("span")
+  if t == "B":
+    return el("br")
+  return el("span", None, ["n", el("br"), " m ", el("span", None, ["k"])])
+
+
+def fam_mixed(maxlen):
+  seqs = [[]]
+  frontier = [[]]
+  for _ in range(maxlen):
+    frontier = [s + [t] for s in frontier for t in "TWSEBN"]
+    seqs += frontier
+  prod = Product([list(range(len(seqs))), ["p", "span"], ["par", "seq"], [None, "preserve"]])
+
+  def decode(i):
+    si, container, tc, space = prod.decode(i)
+    toks = seqs[si]
+    kids = [_tok_xml(t, j) for j, t in enumerate(toks)]
+    a = {"timeContainer": "seq" if tc == "seq" else None, "xml:space": space, "dur": "5s" if tc == "seq" else None}
+    if container == "p":
+      p = el("p", a, kids)
+    else:
+      p = el("p", None, [el("span", a, kids)])
+    return {"xml": tt(el("body", None, [el("div", None, [p])])), "area": "mixed", "clause": "C04.anonspan",
+            "d": f"in={container},tc={tc},tokens={''.join(sorted(set(toks)))}"}
+  return prod.n, decode
+
+
+# ---------------------------------------------------------------------------------------------------
+# F-ruby: ruby containers
+
+def _rb(kind, content, attrs=None):
+  a = {"tts:ruby": kind}
+  a.update(attrs or {})
+  return el("span", a, content)
+
+
+def fam_ruby():
+  patterns = ["bt", "bdtd", "BC", "BCC", "BCd", "none", "nested-none", "bt-styled"]
+  tim = [(None, None), ("1s", None), (None, "3s"), ("1s", "3s")]
+  prod = Product([patterns, ["text", "span"], tim, tim])
+
+  def decode(i):
+    pat, content, (cb, ce), (tb, te) = prod.decode(i)
+
+    def c(s):
+      return [s] if content == "text" else [el("span", None, [s])]
+    ta = {"begin": tb, "end": te}
+    if pat == "bt":
+      kids = [_rb("base", c("B")), _rb("text", c("T"), ta)]
+    elif pat == "bt-styled":
+      kids = [_rb("base", c("B"), {"tts:color": "red"}), _rb("text", c("T"), dict(ta, **{"tts:rubyPosition": "after", "tts:rubyAlign": "spaceAround", "tts:fontSize": "50%"}))]
+    elif pat == "bdtd":
+      kids = [_rb("base", c("B")), _rb("delimiter", c("(")), _rb("text", c("T"), ta), _rb("delimiter", c(")"))]
+    elif pat == "BC":
+      kids = [_rb("baseContainer", [_rb("base", c("B"))]), _rb("textContainer", [_rb("text", c("T"), ta)])]
+    elif pat == "BCC":
+      kids = [_rb("baseContainer", [_rb("base", c("B1")), _rb("base", c("B2"))]),
+              _rb("textContainer", [_rb("text", c("T1"), ta), _rb("text", c("T2"))], {"tts:rubyPosition": "before"}),
+              _rb("textContainer", [_rb("text", c("U"))], {"tts:rubyPosition": "after"})]
+    elif pat == "BCd":
+      kids = [_rb("baseContainer", [_rb("base", c("B"))]),
+              _rb("textContainer", [_rb("delimiter", c("(")), _rb("text", c("T"), ta), _rb("delimiter", c(")"))])]
+    if pat == "none":
+      ruby = _rb("none", c("plain"), {"begin": cb, "end": ce})
+    elif pat == "nested-none":
+      ruby = el("span", {"begin": cb, "end": ce}, ["x", _rb("none", c("plain"), ta), "y"])
+    else:
+      ruby = _rb("container", kids, {"begin": cb, "end": ce})
+    p = el("p", None, ["pre", ruby, "post"])
+    return {"xml": tt(el("body", None, [el("div", None, [p])])), "area": "ruby", "clause": "C04.ruby",
+            "d": "pattern=none" if "none" in pat else f"pattern={pat}"}
+  return prod.n, decode
+
+
+# ---------------------------------------------------------------------------------------------------
+# F-param: document parameters
+
+def fam_param():
+  cells = [(None, "-"), ("32 15", "default"), ("40 19", "2int"), ("1 1", "2int"), ("38 12", "2int")]
+  exts = [(None, "-"), ("640px 480px", "px"), ("1920px 1080px", "px"), ("auto", "auto")]
+  aas = [(None, "-"), ("10% 10% 80% 80%", "4pct"), ("0% 0% 100% 100%", "4pct"), ("12.5% 5% 75% 90%", "4pct")]
+  dars = [(None, None, "-"), ("16 9", None, "ttp"), (None, "4 3", "ittp"), ("64 27", None, "ttp"), (None, "1 1", "ittp")]
+  prod = Product([cells, exts, aas, dars])
+
+  def decode(i):
+    (cell, cl), (ext, xl), (aa, al), (dar, iar, dl) = prod.decode(i)
+    a = {"ttp:cellResolution": cell, "tts:extent": ext, "ittp:activeArea": aa, "ttp:displayAspectRatio": dar, "ittp:aspectRatio": iar}
+    return {"xml": tt(el("body", None, [el("div", None, [el("p", None, ["x"])])]), a), "area": "param", "clause": "C04.param.other",
+            "d": f"cell={cl},extent={xl},activeArea={al},dar={dl}"}
+  return prod.n, decode
+
+
+# ---------------------------------------------------------------------------------------------------
+# F-set: set animation on every kind of element, and region timing
+
+def fam_set():
+  kinds = ["body", "div", "p", "span", "br", "region"]
+  ptim = [(None, None), ("1s", None), (None, "5s"), ("1s", "5s")]
+  prod = Product([kinds, ptim, FULL_T, [None, "other", "same-later"]])
+
+  def decode(i):
+    kind, (pb, pe), (b, d, e), second = prod.decode(i)
+    sets = [el("set", {"begin": b, "dur": d, "end": e, "tts:color": "red"})]
+    if second == "other":
+      sets.append(el("set", {"begin": "2s", "tts:opacity": "0.5"}))
+    elif second == "same-later":
+      sets.append(el("set", {"begin": "6s", "end": "7s", "tts:color": "blue"}))
+    ta = {"begin": pb, "end": pe}
+    layout = ""
+    span = el("span", dict({"xml:lang": "n3"}, **(ta if kind == "span" else {})), (sets if kind == "span" else []) + ["x"])
+    br = el("br", None, sets if kind == "br" else [])
+    p = el("p", dict({"xml:lang": "n2"}, **(ta if kind in ("p", "br") else {})), (sets if kind == "p" else []) + [span, br])
+    div = el("div", dict({"xml:lang": "n1"}, **(ta if kind == "div" else {})), (sets if kind == "div" else []) + [p])
+    body = el("body", dict({"xml:lang": "n0"}, **(ta if kind == "body" else {})), (sets if kind == "body" else []) + [div])
+    if kind == "region":
+      layout = el("region", dict({"xml:id": "r1"}, **ta), sets)
+    return {"xml": tt(head("", layout) + body), "area": "set", "clause": "C04.set", "d": f"on={kind}"}
+  return prod.n, decode
+
+
+def fam_regiontime():
+  prod = Product([FULL_T, [None] + FULL_T[1:], [False, True]])
+
+  def decode(i):
+    (b, d, e), st, two = prod.decode(i)
+    sets = [] if st is None else [el("set", {"begin": st[0], "dur": st[1], "end": st[2], "tts:backgroundColor": "red"})]
+    regs = el("region", {"xml:id": "r1", "begin": b, "dur": d, "end": e, "tts:backgroundColor": "blue"}, sets)
+    if two:
+      regs += el("region", {"xml:id": "r2", "begin": "2s"})
+    body = el("body", {"xml:lang": "n0"}, [el("div", {"xml:lang": "n1", "region": "r1"}, [el("p", {"xml:lang": "n2", "end": "10s"}, ["x"])])])
+    return {"xml": tt(head("", regs) + body), "area": "regiontime", "clause": "C04.time.region", "d": "region"}
+  return prod.n, decode
+
+
+def fam_initial():
+  pairs = [("tts:color", "red"), ("tts:fontStyle", "italic"), ("tts:backgroundColor", "#00000080"), ("tts:fontSize", "80%"),
+           ("tts:textAlign", "center"), ("tts:showBackground", "whenActive"), ("tts:lineHeight", "125%"), ("tts:wrapOption", "noWrap")]
+  prod = Product([list(range(len(pairs))), list(range(len(pairs))), ["one-element", "two-elements"]])
+
+  def decode(i):
+    a, b, how = prod.decode(i)
+    (an, av), (bn, bv) = pairs[a], pairs[b]
+    if how == "one-element" or an == bn:
+      st = el("initial", {an: av, bn: bv})
+    else:
+      st = el("initial", {an: av}) + el("initial", {bn: bv})
+    st += el("style", {"xml:id": "s1", an: av})
+    return {"xml": tt(head(st) + el("body", None, [el("div", None, [el("p", {"style": "s1"}, ["x"])])])), "area": "initial",
+            "clause": "C04.initial", "d": how}
+  return prod.n, decode
+
+
+# ---------------------------------------------------------------------------------------------------
+# E-dev: one attribute of a well-formed seed replaced by each value of a malformed menu
+
+import re as _re
+import xml.etree.ElementTree as _ET
+from mc import refttml as _R
+
+for _p, _u in (("", _R.NS_TT), ("tts", _R.NS_TTS), ("ttp", _R.NS_TTP), ("ittp", _R.NS_ITTP), ("itts", _R.NS_ITTS), ("ebutts", _R.NS_EBUTTS)):
+  _ET.register_namespace(_p, _u)
+
+_PREFIX = {_R.NS_TTS: "tts", _R.NS_TTP: "ttp", _R.NS_ITTP: "ittp", _R.NS_ITTS: "itts", _R.NS_EBUTTS: "ebutts", _R.NS_XML: "xml"}
+_UNITS = _re.compile(r"(?<=\d)(px|em|c|%|rh|rw|ms|h|m|s|f|t)\b")
+
+
+def _pname(qn):
+  if qn.startswith("{"):
+    ns, local = qn[1:].split("}")
+    return f"{_PREFIX.get(ns, 'ns')}:{local}"
+  return qn
+
+
+def dev_menu(valid):
+  first = valid.split(" ")[0]
+  m = [("empty", ""), ("unknown-keyword", "bogus"), ("non-numeric", "x1y"), ("extra-component", valid + " " + first),
+       ("extra-junk", valid + " bogus"), ("junk-suffix", valid + "xyz")]
+  nu = _UNITS.sub("", valid)
+  if nu != valid:
+    m.append(("missing-unit", nu))
+  else:
+    m.append(("number", "1"))
+  return m
+
+
+def dev_seeds():
+  seeds = []
+  # timing on every element kind, set, region
+  t = {"begin": "1s", "dur": "2s", "end": "00:00:04"}
+  tc = dict(t, timeContainer="seq")
+  seeds.append(("timing", tt(head("", el("region", dict({"xml:id": "r1"}, **t))) + el("body", dict(tc, **{"xml:lang": "n0"}), [
+    el("div", dict(tc, **{"xml:lang": "n1"}), [el("p", dict(t, timeContainer="par", region="r1", **{"xml:lang": "n2"}), [
+      el("set", dict(t, **{"tts:color": "red"})), el("span", dict(t, **{"xml:lang": "n3", "xml:space": "preserve"}), ["x"])])])]))))
+  # parameters (observable through frame and tick expressions and the document parameters)
+  seeds.append(("param", tt(el("body", None, [el("div", None, [el("p", {"begin": "12f", "end": "00:00:02:05"}, ["x"]), el("p", {"begin": "30000000t", "dur": "1.5s"}, ["y"])])]),
+                            {"ttp:frameRate": "24", "ttp:frameRateMultiplier": "1000 1001", "ttp:tickRate": "10000000", "ttp:cellResolution": "40 19",
+                             "tts:extent": "640px 480px", "ittp:activeArea": "10% 10% 80% 80%", "ttp:displayAspectRatio": "16 9", "xml:space": "preserve"})))
+  seeds.append(("param2", tt(el("body", None, [el("div", None, [el("p", {"begin": "1s"}, ["x"])])]), {"ittp:aspectRatio": "4 3"})))
+  # referential styling and ruby
+  seeds.append(("ref", tt(head(el("style", {"xml:id": "s1", "tts:color": "red"}) + el("style", {"xml:id": "s2", "style": "s1", "tts:fontStyle": "italic"}),
+                               el("region", {"xml:id": "r1", "style": "s1"})) +
+                          el("body", None, [el("div", None, [el("p", {"style": "s2"}, [el("span", {"tts:ruby": "container"}, [
+                            el("span", {"tts:ruby": "base"}, ["b"]), el("span", {"tts:ruby": "text"}, ["t"])])])])]))))
+  # every style attribute on every carrier
+  for attr, vals in VALUES.items():
+    seen = set()
+    for lab, v in vals:
+      if lab in seen or lab in ("one-char", "space-before-comma", "multi,comma-space", "3len+rgba()", "2len", "auto" if attr == "tts:extent" else ""):
+        continue
+      seen.add(lab)
+      if len(seen) > 2:
+        break
+      for c in ("p", "style", "initial", "set", "nested"):
+        seeds.append((f"{attr}@{c}", value_doc(attr, v, c)))
+  return seeds
+
+
+def fam_dev():
+  """index table: (seed, element index, attribute, menu entry)"""
+  cases = []
+  skip = {"{%s}lang" % _R.NS_XML, "{%s}id" % _R.NS_XML, "region"}
+  for name, xml in dev_seeds():
+    root = _ET.fromstring(xml)
+    only = None
+    if "@" in name:
+      only = name.split("@")[0]
+    for ei, e in enumerate(root.iter()):
+      for qn, val in e.attrib.items():
+        pn = _pname(qn)
+        if qn in skip or (only is not None and pn != only):
+          continue
+        for lab, bad in dev_menu(val):
+          cases.append((xml, ei, qn, pn, lab, bad))
+
+  def decode(i):
+    xml, ei, qn, pn, lab, bad = cases[i]
+    r1 = _ET.fromstring(xml)
+    e1 = list(r1.iter())[ei]
+    e1.attrib[qn] = bad
+    r2 = _ET.fromstring(xml)
+    e2 = list(r2.iter())[ei]
+    del e2.attrib[qn]
+    tag = e1.tag.split("}")[-1]
+    return {"xml": _ET.tostring(r1, encoding="unicode"), "base": _ET.tostring(r2, encoding="unicode"), "attr": pn, "on": tag, "menu": lab,
+            "area": "dev"}
   return len(cases), decode
